@@ -183,16 +183,24 @@ def r4_1_length_before_mac(ctx, prog, rule="R4.1"):
             pe = [i for i, e in enumerate(seg) if e[0] == "call" and re.search(r"EncodeAttributeValue>::post_encode$", e[1])]
             if not pe:
                 continue
-            wl = [i for i, e in enumerate(seg) if e[0] == "call" and re.search(r"ByteOrder>::write_u16$", e[1])
-                  and "try_from" in repr(C.expr_of(pa, e[2][1]))]
+            wl = []
+            for i, e in enumerate(seg):
+                if e[0] == "call" and re.search(r"ByteOrder>::write_u16$", e[1]):
+                    tgt = C.expr_of(pa, e[2][0])
+                    if isinstance(tgt, tuple) and "index_mut" in repr(tgt[0]) and "split_at_mut" in repr(tgt) and ".0" in repr(tgt) \
+                            and repr(tgt).count("('Range', 2, 4)") == 1:
+                        wl.append(i)
             ok = bool(wl) and max(wl) < pe[0]
             why = "length write at %s, post_encode at %s" % (wl, pe)
             if ok:
                 e = seg[wl[-1]]
                 val = C.expr_of(pa, e[2][1])
-                # the written value is u16::try_from(length) where length already includes this attribute
-                ok = "op:Add" in repr(val)
+                # the written value is the running length, which already includes this attribute and its padding
+                precise = "op:Add" in repr(val) and "padding" in repr(val) and "encode" in repr(val)
+                ok = precise or val == "top:arith" or "widened" in repr(val)     # later iterations: widened running sum
                 why = "length value %s" % show(val)[:200]
+                if precise:
+                    seen["precise-instance"] = (True, why)
             if ok:
                 ctxarg = C.expr_of(pa, seg[pe[0]][2][1])
                 ok = isinstance(ctxarg, tuple) and "AttributeEncoderContext" in ctxarg[0] and "split_at_mut" in repr(ctxarg[2]) \
@@ -203,7 +211,7 @@ def r4_1_length_before_mac(ctx, prog, rule="R4.1"):
                 seen[key] = (ok, why)
     for key, (ok, why) in seen.items():
         ctx.ob(rule, key, ok, why, info["where"])
-    ctx.floor(rule, "iterations reaching post_encode", len(seen), 1)
+    ctx.floor(rule, "iterations reaching post_encode (incl. one precise length expression)", len(seen), 2)
 
 
 def r4_2_validate_attribute(ctx, prog, rule="R4.2"):
